@@ -178,19 +178,39 @@ Variable compile : nat -> cval.                (* rule object -> the compilation
 Inductive elk := LCache | LFile (l : nat) | LRule (r : nat).
 Lemma elk_eq_dec (a b : elk) : {a = b} + {a <> b}.
 Proof. decide equality; apply Nat.eq_dec. Defined.
+(* a materialised rule is an OBJECT: its value and an instance identity (the lookup tables tell rules apart by
+   identity); the identity is whatever the inserting goroutine allocated *)
 Inductive ecomp :=
-| CCache (m : nat * nat -> option rule)        (* RuleStorage.cache *)
+| CCache (m : nat * nat -> option (rule * nat)) (* RuleStorage.cache: index -> (rule, instance) *)
 | CFile (offset : nat)                         (* the shared file position of a FileRuleList *)
 | CRule (c : option cval).                     (* NetworkRule.regex / invalid *)
-Inductive eout := OUnit | ORule (r : option rule) | OVal (v : cval).
+Inductive eout :=
+| OUnit
+| ORule (r : option rule)                      (* what a file read produced *)
+| OInst (i : nat * nat) (v : option (rule * nat))   (* the cache's answer for index i *)
+| OVal (v : cval).
 
-Definition upd2 (m : nat * nat -> option rule) (i : nat * nat) (v : option rule) : nat * nat -> option rule :=
+Definition upd2 {A} (m : nat * nat -> option A) (i : nat * nat) (v : option A) : nat * nat -> option A :=
   fun j => if (Nat.eqb (fst j) (fst i) && Nat.eqb (snd j) (snd i))%bool then v else m j.
 
 Definition cache_read (i : nat * nat) : act ecomp eout :=
-  fun c => (c, match c with CCache m => ORule (m i) | _ => OUnit end).
-Definition cache_write (i : nat * nat) (r : rule) : act ecomp eout :=
-  fun c => (match c with CCache m => CCache (upd2 m i (Some r)) | _ => c end, OUnit).
+  fun c => (c, match c with CCache m => OInst i (m i) | _ => OUnit end).
+(* the insert of RetrieveRule (after the F17 repair): an entry another goroutine made in the meantime is KEPT and
+   handed back; otherwise the new object is stored *)
+Definition cache_insert (i : nat * nat) (r : rule) (x : nat) : act ecomp eout :=
+  fun c => match c with
+           | CCache m => match m i with
+                         | Some v => (c, OInst i (Some v))
+                         | None => (CCache (upd2 m i (Some (r, x))), OInst i (Some (r, x)))
+                         end
+           | _ => (c, OUnit)
+           end.
+(* the insert as the pinned tree had it: overwrite (kept to show what the repair is for) *)
+Definition cache_overwrite (i : nat * nat) (r : rule) (x : nat) : act ecomp eout :=
+  fun c => match c with
+           | CCache m => (CCache (upd2 m i (Some (r, x))), OInst i (Some (r, x)))
+           | _ => (c, OUnit)
+           end.
 Definition file_seek (off : nat) : act ecomp eout := fun _ => (CFile off, OUnit).
 (* reads at the CURRENT shared position: this is the hazard the list mutex removes *)
 Definition file_read (l : nat) : act ecomp eout :=
@@ -206,24 +226,36 @@ Notation etask := (task elk ecomp eout).
 Definition T_lookup (i : nat * nat) : etask := {| t_lock := LCache; t_write := false; t_acts := [cache_read i] |}.
 Definition T_load (i : nat * nat) : etask :=
   {| t_lock := LFile (fst i); t_write := true; t_acts := [file_seek (snd i); file_read (fst i)] |}.
-Definition T_insert (i : nat * nat) (r : rule) : etask :=
-  {| t_lock := LCache; t_write := true; t_acts := [cache_write i r] |}.
+Definition T_insert (i : nat * nat) (r : rule) (x : nat) : etask :=
+  {| t_lock := LCache; t_write := true; t_acts := [cache_insert i r x] |}.
+Definition T_overwrite (i : nat * nat) (r : rule) (x : nat) : etask :=
+  {| t_lock := LCache; t_write := true; t_acts := [cache_overwrite i r x] |}.
 Definition T_prepare (r : nat) : etask := {| t_lock := LRule r; t_write := true; t_acts := [rule_prepare r] |}.
 
 (* what a goroutine may do next, given what it has seen: look up, load, prepare at will; insert only a rule it
-   has itself loaded from that index (RetrieveRule inserts what list.RetrieveRule just returned) *)
+   has itself loaded from that index (RetrieveRule inserts what list.RetrieveRule just returned), as any object *)
 Definition allowed (h : list (etask * list eout)) (tk : etask) : Prop :=
   (exists i, tk = T_lookup i) \/ (exists i, tk = T_load i) \/ (exists r, tk = T_prepare r) \/
-  (exists i r, tk = T_insert i r /\ In (T_load i, [OUnit; ORule (Some r)]) h).
+  (exists i r x, tk = T_insert i r x /\ In (T_load i, [OUnit; ORule (Some r)]) h).
 
 Definition EGood (k : elk) (c : ecomp) : Prop :=
   match k, c with
-  | LCache, CCache m => forall i r, m i = Some r -> content (fst i) (snd i) = Some r
+  | LCache, CCache m => forall i r x, m i = Some (r, x) -> content (fst i) (snd i) = Some r
   | LFile _, CFile _ => True
   | LRule r, CRule c => c = None \/ c = Some (compile r)
   | _, _ => False
   end.
+(* cache entries are never replaced *)
+Definition EExt (k : elk) (c c' : ecomp) : Prop :=
+  match k, c, c' with
+  | LCache, CCache m, CCache m' => forall i v, m i = Some v -> m' i = Some v
+  | LCache, _, _ => False
+  | _, _, _ => True
+  end.
+(* an answer "index i holds object v" given by a cache region is consistent with the cache content *)
+Definition EValid (tk : etask) (o : list eout) (c : ecomp) : Prop :=
+  t_lock tk = LCache -> forall i v, In (OInst i (Some v)) o -> match c with CCache m => m i = Some v | _ => False end.
 
 End EnginesModel.
 Arguments CCache {rule cval}. Arguments CFile {rule cval}. Arguments CRule {rule cval}.
-Arguments OUnit {rule cval}. Arguments ORule {rule cval}. Arguments OVal {rule cval}.
+Arguments OUnit {rule cval}. Arguments ORule {rule cval}. Arguments OInst {rule cval}. Arguments OVal {rule cval}.
